@@ -842,6 +842,7 @@ def _area_specific(A, o1, b1, inp, rec, kind, settings, cfg, rng, keys):
         from spsdk.image.xmcd.xmcd import MEMORY_INTERFACE_TO_VALUE
         E(((hdr >> 20) & 0xF) == MEMORY_INTERFACE_TO_VALUE[A.mt] and ((hdr >> 12) & 0xF) == A.ct.tag, inp,
           "XMCD header word does not name the memory interface / block type of the configuration", hex(hdr))
+        _xmcd_sequence(A, b1, inp, rec, rng)
         rec.model.append({"op": "xmcdhdr", "args": [len(b1), A.ct.tag, (hdr >> 16) & 0xF, MEMORY_INTERFACE_TO_VALUE[A.mt]], "hdr": hdr,
                           "inp": list(map(str, inp))})
     elif kind == "fcb":
@@ -870,8 +871,137 @@ def _area_specific(A, o1, b1, inp, rec, kind, settings, cfg, rng, keys):
             rec.model.append({"op": "tz", "vals": vals[1], "bytes": b1.hex(), "n": len(names), "inp": list(map(str, inp))})
 
 
+
+def _xmcd_sequence(A, b1, inp, rec, rng):
+    """parse(export) -> change one option field on the same object -> export: the CRC follows the new bytes, the header still gives
+    the size, only that register changes."""
+    E = rec.expect
+    r = pyres(A.parse, b1)
+    if r[0] != "ok":
+        return
+    o = r[1]
+    blk = o.config_block._registers
+    present = pyres(lambda: {x.name for x in o.config_block.registers._registers})  # configOption1 exists only when optionSize != 0
+    present = present[1] if present[0] == "ok" else set()
+    cands = [(rg, b) for rg in blk._registers if not rg.hidden and rg.name in present for b in rg._bitfields
+             if not b.hidden and b.name not in ("optionSize", "tag") and [x.name for x in rg._bitfields].count(b.name) == 1 and b.config_width == b.width]
+    if not cands:
+        return
+    rg, bf = rng.choice(cands)
+    v = bf.get_value() ^ 1
+    sinp = inp + ("seq:parse+partial_load", rg.name, bf.name, v)
+    rec.note(sinp, "xmcd:seq:parse-set")
+    r1 = pyres(o.config_block.load_from_config, {rg.name: {bf.name: v}})
+    if not E(r1[0] == "ok", sinp, "partial load on a parsed XMCD fails", r1):
+        return
+    r2 = pyres(o.export)
+    if not E(r2[0] == "ok" and len(r2[1]) == len(b1), sinp, "export after parse + partial load fails or changes the size", r2):
+        return
+    b2 = r2[1]
+    off = 4 + rg.offset  # the block registers follow the 4-byte header
+    w = int.from_bytes(b1[off:off + rg.width // 8], "little")
+    want = (w & ~(((1 << bf.width) - 1) << bf.offset)) | (v << bf.offset)
+    exp = b1[:off] + want.to_bytes(rg.width // 8, "little") + b1[off + rg.width // 8:]
+    E(b2 == exp, sinp, "parse -> partial load -> export: the binary is not the old one with just that field changed", first_diff(exp, b2))
+    c = pyres(lambda: o.crc)
+    E(c == ("ok", crc32_mpeg(b2).to_bytes(4, "big")), sinp, "XMCD CRC after a change on the same object is not the CRC of the new export", c)
+    E((int.from_bytes(b2[:4], "little") & 0xFFF) == len(b2), sinp, "XMCD size field does not give the size after the change")
+
+
 def _le32(b, off):
     return int.from_bytes(b[off:off + 4], "little")
+
+
+
+def _ref_rule(rid, w):
+    """independent recomputation of a computed register from its source bits (the target field is rebuilt, never kept)"""
+    if rid == 0:
+        low = w & 0xFFFF
+        return low | ((low ^ 0xFFFF) << 16)
+    return (w & 0xFFFF00FF) | (((w & 0xFF) ^ 0xFF) << 8)
+
+
+def _pfr_sequences(A, o1, b1, inp, rec, comp, settings, rng):
+    """Multi-step histories on ONE object (a computed field must be rebuilt from the source bits, whatever it held before):
+      A: parse(a page whose computed register already carries a non-zero computed field) -> partial set_config raising/clearing a
+         source bit without giving the hidden field -> export (+ sealed export);
+      B: set_config(full configuration) -> partial set_config on the same object -> export.
+    Oracle: the final binary equals the previous one except for that register, which must be the INDEPENDENT recomputation."""
+    E = rec.expect
+    regs = o1.registers
+    for reg_uid, fields in comp.items():
+        reg = regs.get_reg(reg_uid)
+        if reg not in regs._registers or reg.width != 32 or len(fields) != 1:
+            continue
+        bf_uid, method = next(iter(fields.items()))
+        rid = {"pfr_reg_inverse_high_half": 0, "pfr_reg_inverse_lower_8_bits": 1}.get(method)
+        if rid is None:
+            continue
+        src_bits = 16 if rid == 0 else 8
+        cands = [b for b in reg._bitfields if not b.hidden and b.uid != bf_uid and b.offset + b.width <= src_bits and b.config_width == b.width]
+        if not cands:
+            continue
+        bf = rng.choice(cands)
+        off = reg.offset
+        fmask = ((1 << bf.width) - 1) << bf.offset
+
+        def step(obj, w_before):
+            """partial set_config flipping the lowest bit of `bf`; -> (new field value, expected word)"""
+            v = ((w_before & fmask) >> bf.offset) ^ 1
+            r = pyres(obj.set_config, {reg.name: {bf.name: rng.choice([v, hex(v)])}})
+            return v, _ref_rule(rid, (w_before & ~fmask) | (v << bf.offset)), r
+
+        # ---- A: parse a page with a stale / foreign computed field, then a partial configuration
+        kind = rng.choice(["consistent", "arbitrary"])
+        w_a = _ref_rule(rid, rng.getrandbits(32)) if kind == "consistent" else rng.getrandbits(32)
+        if rid == 0 and kind == "consistent" and rng.random() < 0.5:
+            w_a = 0xFFFF0000  # the erased-source state: every inverse bit set
+        page = b1[:off] + w_a.to_bytes(4, "little") + b1[off + 4:]
+        sinp = inp + ("seq:parse+partial_set_config", reg.name, bf.name, hex(w_a))
+        rec.note(sinp, f"{A.kind}:seq:parse-set")
+        obj = A.cls(family=A.family, revision=A.rev)
+        r0 = pyres(obj.parse, page)
+        if E(r0[0] == "ok", sinp, "parse of a page fails", r0):
+            v, want, r1 = step(obj, w_a)
+            if E(r1[0] == "ok", sinp + (v,), "partial set_config on a parsed page fails", r1):
+                r2 = pyres(lambda: obj.export(draw=False))
+                exp = page[:off] + want.to_bytes(4, "little") + page[off + 4:]
+                if E(r2[0] == "ok", sinp + (v,), "export after parse + set_config fails", r2):
+                    got = _le32(r2[1], off)
+                    E(got == want, sinp + (v,), "computed field is not rebuilt from the source bits after parse(page) -> partial set_config -> export",
+                      hex(got), hex(want))
+                    E(r2[1][:off] == exp[:off] and r2[1][off + 4:] == exp[off + 4:], sinp + (v,),
+                      "parse(page) -> partial set_config -> export changed bytes outside the configured register", first_diff(exp, r2[1]))
+                    rs = pyres(lambda: obj.export(add_seal=True, draw=False))
+                    ok_seal = rs[0] == "ok" and len(rs[1]) == len(exp)
+                    if ok_seal:
+                        diff = [i for i in range(len(exp)) if rs[1][i] != r2[1][i]]
+                        ok_seal = all(rs[1][i:i + 1] in (b"S", b"E", b"A", b"L") for i in diff)
+                    E(ok_seal, sinp + (v, "seal"), "sealed export after the sequence differs from the plain export outside the seal words", rs if rs[0] != "ok" else None)
+            w_in = (w_a & ~fmask) | (v << bf.offset)
+            for x in (w_in, w_in | 0xFFFF0000, rng.getrandbits(32)):
+                fn = getattr(A.cls, method, None)
+                rr = pyres(fn, x) if fn else ("E:other", "missing")
+                if rr[0] == "ok":
+                    rec.model.append({"op": "rule", "rule": rid, "v": x, "out": rr[1], "inp": list(map(str, sinp))})
+        # ---- B: set_config twice on one object
+        sinp = inp + ("seq:set_config+partial_set_config", reg.name, bf.name)
+        rec.note(sinp, f"{A.kind}:seq:set-set")
+        obj = A.cls(family=A.family, revision=A.rev)
+        r0 = pyres(obj.set_config, json.loads(json.dumps(settings)))
+        if E(r0[0] == "ok", sinp, "set_config fails", r0):
+            rb = pyres(lambda: obj.export(draw=False))
+            if E(rb == ("ok", b1), sinp, "set_config on a fresh object does not give the export of load_from_config", None):
+                w1 = _le32(b1, off)
+                v, want, r1 = step(obj, w1)
+                if E(r1[0] == "ok", sinp + (v,), "second (partial) set_config fails", r1):
+                    r2 = pyres(lambda: obj.export(draw=False))
+                    if E(r2[0] == "ok", sinp + (v,), "export after two set_config fails", r2):
+                        got = _le32(r2[1], off)
+                        E(got == want, sinp + (hex(w1), v), "computed field is not rebuilt from the source bits after set_config -> partial set_config -> export",
+                          hex(got), hex(want))
+                        E(r2[1][:off] == b1[:off] and r2[1][off + 4:] == b1[off + 4:], sinp + (v,),
+                          "the second set_config changed bytes outside the configured register", first_diff(b1, r2[1]))
 
 
 def _pfr_specific(A, o1, b1, inp, rec, settings, cfg, rng, keys):
@@ -907,6 +1037,7 @@ def _pfr_specific(A, o1, b1, inp, rec, settings, cfg, rng, keys):
                 rules.append([idx, rid])
     if comp:
         rec.model.append({"op": "compute", "before": raw_values(pre.registers), "after": raw_values(regs), "rules": rules, "inp": list(map(str, inp))})
+        _pfr_sequences(A, o1, b1, inp, rec, comp, settings, rng)
     # ---- seal
     r = pyres(lambda: o1.export(add_seal=True, draw=False))
     if E(r[0] == "ok" and len(r[1]) == len(b1), inp, "export(add_seal=True) fails or changes the size", r):
@@ -1278,6 +1409,9 @@ def _correspondence(ck, drv, cases, recs):
             if it["op"] == "export":
                 lines.append(f"export {_csv(it['vals'])}")
                 expect.append("ok:" + it["bytes"])
+            elif it["op"] == "rule":
+                lines.append(f"compute 0:{it['rule']} 0 {it['v']}")
+                expect.append(str(it["out"]))
             elif it["op"] == "xmcdhdr":
                 lines.append("xmcdhdr " + " ".join(map(str, it["args"])))
                 expect.append(str(it["hdr"]))
